@@ -50,7 +50,15 @@ type Node struct {
 }
 
 func (s *Node) Merge(other *Node) {
-	s.Kinds = s.Kinds.Add(other.Kinds...)
+	for _, otherKind := range other.Kinds {
+		// A kind the other side merely carries (it did not add it) must not undo a deletion made on this
+		// side; only an explicit add on the other side does, see below.
+		if s.DeletedKinds.ContainsOneOf(otherKind) && !other.AddedKinds.ContainsOneOf(otherKind) {
+			continue
+		}
+
+		s.Kinds = s.Kinds.Add(otherKind)
+	}
 
 	for _, otherKind := range other.AddedKinds {
 		s.DeletedKinds = s.DeletedKinds.Remove(otherKind)
